@@ -209,11 +209,24 @@ def mk_code_tables(code_id, _replay=None):
     if _replay is not None:
         a, b, c = int(_replay["a"]), int(_replay["b"]), int(_replay["c"])
         codon = sym[a] + sym[b] + sym[c]
+        claim = _replay.get("claim", "")
+        rcsym = {"T": "A", "C": "G", "A": "T", "G": "C", "-": "-", "?": "?"}
+        rc_codon = "".join(rcsym[x] for x in reversed(codon))
+        special = "X" if 5 in (a, b, c) else ("-" if 4 in (a, b, c) else None)
+        details, bad = [], False
+        # plus strand through the public API
         got = gc.translate(codon)
-        want = ncbi[16 * a + 4 * b + c] if max(a, b, c) <= 3 else ("X" if 5 in (a, b, c) else "-")
-        oldv = og[codon] if max(a, b, c) <= 3 else want
-        bad = got != want or oldv != want
-        return {"status": "reproduced" if bad else "not_reproduced", "detail": f"codon {codon}: new translate {got!r}, NCBI {want!r}, old {oldv!r}"}
+        want = special or ncbi[16 * a + 4 * b + c]
+        oldv = og[codon] if special is None else want
+        gi = gc[codon] if special is None else want
+        bad |= got != want or oldv != want or gi != want
+        details.append(f"codon {codon}: new translate {got!r}, gc[codon] {gi!r}, NCBI {want!r}, old {oldv!r}")
+        # minus strand through the public API: translating `codon` with rc=True must read the NCBI table at revcomp(codon)
+        gotm = gc.translate(codon, rc=True)
+        wantm = special or ncbi[16 * COMP[c] + 4 * COMP[b] + COMP[a]]
+        bad |= gotm != wantm
+        details.append(f"translate({codon!r}, rc=True) {gotm!r}, NCBI[{rc_codon}] {wantm!r}")
+        return {"status": "reproduced" if bad else "not_reproduced", "detail": f"[{claim}] " + "; ".join(details)}
     if not W.reach("end"):
         s = z3.Solver()
         s.add(*dom)
